@@ -26,11 +26,11 @@ const (
 func (c *progCase) taskUnderClone() bool {
 	seenTask := false
 	for _, t := range c.toks {
-		if strings.HasPrefix(t, "wt.") {
-			seenTask = true
-		}
-		if seenTask && (strings.HasPrefix(t, "cs.") || strings.HasPrefix(t, "cc.")) {
+		if seenTask && (strings.HasPrefix(t, "cs.") || strings.HasPrefix(t, "cc.") || strings.HasPrefix(t, "rp.")) {
 			return true
+		}
+		if strings.HasPrefix(t, "wt.") || strings.HasPrefix(t, "rp.") {
+			seenTask = true
 		}
 	}
 	return false
@@ -63,10 +63,13 @@ func (c *progCase) topChain(p *progRun) []int {
 	var out []int
 	for i := len(c.toks) - 1; i >= 1; i-- {
 		t := c.toks[i]
-		if strings.HasPrefix(t, "wt.") {
+		if strings.HasPrefix(t, "wt.") || strings.HasPrefix(t, "rp.") {
 			id--
 			if id >= 0 && !p.tasks[id].ranSync {
 				out = append(out, id)
+			}
+			if strings.HasPrefix(t, "rp.") {
+				break // underneath is a stream clone
 			}
 			continue
 		}
@@ -270,7 +273,7 @@ func (e *env) prepareProg(name string, script []string) *queued {
 			}
 			return bad("")
 		}
-		if len(f) != 6 || strings.Join(f[:3], " ")+" "+f[5] != impl {
+		if len(f) != 7 || strings.Join(f[:3], " ")+" "+f[5] != impl {
 			return bad("")
 		}
 		for _, id := range parseIDs(strings.TrimPrefix(f[4], "waited=")) {
